@@ -14,6 +14,26 @@ ALL_INVS = ['I_SingleFlight', 'I_BurstCostsOne', 'I_NoEarlyRelease', 'I_NoUntime
             'I_HfpLapses', 'I_PurgeEffective', 'I_BadRecordIsMiss', 'I_NoOwnError', 'I_NoStuck']
 
 
+def purge_signature(inv, trace, beh=None):
+    """signature of a violation = invariant + what distinguishes the failing history"""
+    if inv != 'I_PurgeEffective':
+        return inv
+    end = trace[-1]
+    v = end.get('v', 0)
+    pub = next((e for e in trace if e.get('op') == 'Publish' and e.get('v') == v), None)
+    if pub:
+        ent, key = pub['e'], pub['k']
+        seen = False
+        for e in trace:
+            if e.get('op') == 'Looked' and e.get('e') == ent:
+                seen = True
+            if seen and e.get('op') == 'Evicted' and e.get('k') == key:
+                return 'I_PurgeEffective:served-version-published-by-entry-evicted-while-fetching'
+            if e is pub:
+                break
+    return inv
+
+
 def model_check(mods, tier, res):
     """step 1"""
     for mod, quick_ok, tmo in mods:
